@@ -160,6 +160,16 @@ def w_accessor(w, cfg):
             return a.like([f(V.to_real(v.value if isinstance(v, V.Partial) else v)) for v in a.vals], dtype="float64")
         return it_.lib.LIB["numpy.log10"](it_, st_, a)
     it.lib_overrides["numpy.log10"] = log10
+
+    @native
+    def asarray(it_, st_, obj, dtype=None, **kw):
+        if isinstance(obj, X.StubDA):
+            # a labelled per-pixel raster (lc) turned into a bare ndarray: apply_ufunc can then only align it by position
+            it_.oblige(st_, "labels-dropped", False, "per-pixel DataArray converted to an unlabelled ndarray before apply_ufunc")
+            return obj
+        return it_.lib.np_array(it_, st_, obj, dtype)
+    it.lib_overrides["numpy.asarray"] = asarray
+    it.lib_overrides["numpy.array"] = asarray
     kwargs = {"nodata": nd}
     if mode in ("p", "nop"):
         kwargs["srange"] = it.new_array(st, (3,), "float64", cells=list(llas))
@@ -175,6 +185,9 @@ def w_accessor(w, cfg):
     conc = lambda m: {"kernel": "whitsvc", "data": [C.model_value(m, x) if v else None for x, v in zip(px.xs, px.valid)],  # noqa: E731
                       "nodata": C.model_value(m, nd), "p": C.model_value(m, p) if mode != "nop" else None, "mode": mode,
                       "l0": C.model_value(m, l0), "lstep": C.model_value(m, step), "name": cfg.get("name")}
+    for ob in it.obligations:
+        if ob.kind == "labels-dropped":
+            w.discharge(f"whitsvc[{mode}].{ob.kind}", facts, ob.claim, guard=ob.guard, concretize=conc)
     w.discharge(f"whitsvc[{mode}].dataset_names", [], z3.BoolVal(set(ds.vars) == {want, "sgrid"}), concretize=conc)
     if set(ds.vars) != {want, "sgrid"}:
         return
@@ -207,6 +220,11 @@ def configs(tier):
                     if kname == "ws2doptvp" and grid > (3 if tier == "quick" else 4):
                         continue
                     cf.append({"kind": "kernel", "kernel": kname, "valid": valid, "grid": grid, "inline": kname == "ws2doptv" and grid <= 3})
+    # the minimum valid count (exactly two / three valid cells) on a short series, both kernels
+    for kname in ("ws2doptv", "ws2doptvp"):
+        for valid in S.gap_patterns(4, 2):
+            if sum(valid) <= 3:
+                cf.append({"kind": "kernel", "kernel": kname, "valid": valid, "grid": 3, "inline": kname == "ws2doptv"})
     for series in LC_SERIES:
         for lc in ("real", "nan"):
             for pv in ((0.9,) if tier == "quick" else (0.9, 0.5, 0.1)):
